@@ -12,7 +12,7 @@ from vlib import common as C
 from vlib.framework import Corr
 
 META = {
-    "drivers": ["lincheck"],
+    "drivers": ["lincheck", "impcheck"],
     "rule": "case = (N, M, stored precision, coordinate precision, plain|clamp, field data, coordinate bits, build config); "
             "non-trivial when the 2^N reads hit at least two different cells (a coordinate clamped on every axis is trivial)",
     "trusted_base": ["standard model of IEEE-754 arithmetic behind the forward error bound gamma_k * sum|w v| + k*tiny*max(1, sum|v|), "
@@ -482,14 +482,19 @@ def pick_combos(ctx):
 
 def run(ctx):
     combos = pick_combos(ctx)
+    # the tie through translation (DESIGN.md §11.6): the weighted sums of the 1-D / 2-D / 3-D branches as written are the terms
+    # `Covfie.Lin.*_translated` are about; a branch whose text changed gets the thorough tier's fields and points
+    from harness import translib as T
+    tie = T.Tie(ctx, ["lin1", "lin2", "lin3"])
+    deep_dims = {T.LIN[k] for k in tie.changed()}
     cfgs = ["dbg", "rel", "isa"]      # isa: code guarded by __FMA__ / __AVX2__ / __SSE4_1__ is compiled and run (contraction stays off)
     failed = build(ctx.work, combos, cfgs)
-    nfields, npts = (4, 120) if ctx.quick else (20, 1000)
     tasks = []
     for cb in combos:
         if cb in failed:
             continue
         N, M, vp, cp = cb
+        nfields, npts = (4, 120) if (ctx.quick and N not in deep_dims) else (20, 1000)
         rnd = random.Random(ctx.seed * 1000003 + N * 1009 + M * 101 + vp * 7 + cp)
         fields = []
         for f in range(nfields):
@@ -520,10 +525,11 @@ def run(ctx):
         report_uncompilable(corr, failed)
     corr = merge(corr, outs)
     corr.info["type_combinations"] = len(combos) - len(failed)
-    corr.info["points_per_combination"] = nfields * npts
+    corr.info["points_per_combination"] = 4 * 120 if ctx.quick else 20 * 1000
     run_corpus(ctx, corr, ["dbg", "rel"])
     from harness import ldlib
     ldlib.part(ctx, corr, ["linear"], "lin_lattice")      # long double coordinates: lattice points and cell centres
+    tie.merge(corr)
     return corr
 
 
